@@ -1,0 +1,13 @@
+//go:build verif
+
+// Contracts for the govc verifier (see /verif/DESIGN.md). Comment-only file.
+package math
+
+//@ # Pow is computed with 100-bit floats through exp(w*log z); under the A-REAL idealisation it is the real power
+//@ # function. The contract is ASSUMED (trusted), not proved against the body: the bounded relative error of
+//@ # Exp/Log is outside any SMT theory available here.
+//@ func Pow
+//@   trusted
+//@   requires nonneg: z != nil && w != nil && z.real >= 0
+//@   ensures result != nil && fresh(result) && result.real == pow(z.real, w.real)
+//@   modifies nothing
